@@ -52,6 +52,8 @@ type intent struct {
 	Authority int            // sender index signing the authorization
 	Delegate  common.Address // delegation target (zero = clear)
 	Pat       string
+	Note      string // lifecycle family: what the transaction does to the target (witness only)
+	TipEqCap  bool   // tip = fee cap: the effective gas price does not depend on the base fee
 }
 
 type blockPlan struct {
@@ -73,6 +75,12 @@ type scenario struct {
 	origSlot  map[common.Address]map[uint64]uint64
 	plans     []blockPlan
 	patterns  []string // distinct pattern names used
+	// account-lifecycle family (lifecycle.go)
+	lcTargets     []*lcTarget
+	lcNonce       map[int]uint64 // planned nonce of the dedicated creation senders
+	lcCreatorUsed map[int]bool   // creators used in the block being planned (one creation each)
+	lcStats       map[string]int
+	lcSerial      int
 }
 
 func amsterdamConfig() *params.ChainConfig {
@@ -92,7 +100,7 @@ func mkKey(tag string) *ecdsa.PrivateKey {
 func pick[T any](rng *rand.Rand, xs []T) T { return xs[rng.Intn(len(xs))] }
 
 func newScenario(rng *rand.Rand, nBlocks, maxTx int) *scenario {
-	s := &scenario{cfg: amsterdamConfig(), origSlot: map[common.Address]map[uint64]uint64{}}
+	s := &scenario{cfg: amsterdamConfig(), origSlot: map[common.Address]map[uint64]uint64{}, lcNonce: map[int]uint64{}, lcStats: map[string]int{}}
 	alloc := types.GenesisAlloc{
 		params.BeaconRootsAddress:        {Nonce: 1, Code: params.BeaconRootsCode, Balance: common.Big0},
 		params.HistoryStorageAddress:     {Nonce: 1, Code: params.HistoryStorageCode, Balance: common.Big0},
@@ -110,6 +118,16 @@ func newScenario(rng *rand.Rand, nBlocks, maxTx int) *scenario {
 			alloc[a] = types.Account{Balance: new(big.Int).Mul(big.NewInt(1_000_000), ether)}
 		}
 	}
+	// senders nSenders+1 .. nSenders+nLcCreators only send lifecycle creation transactions, so
+	// the addresses of the contracts they create are known when the block is planned
+	for i := 0; i < nLcCreators; i++ {
+		k := mkKey(fmt.Sprintf("lc-creator-%d", i))
+		s.keys = append(s.keys, k)
+		a := crypto.PubkeyToAddress(k.PublicKey)
+		s.addrs = append(s.addrs, a)
+		alloc[a] = types.Account{Balance: new(big.Int).Mul(big.NewInt(1_000_000), ether)}
+	}
+	alloc[lcFactoryAddr] = types.Account{Nonce: 1, Code: lcFactory, Balance: common.Big0}
 	for i := 0; i < nContracts; i++ {
 		a := common.BytesToAddress([]byte{0xc0, 0xde, byte(i + 1)})
 		s.contracts = append(s.contracts, a)
@@ -157,7 +175,7 @@ func newScenario(rng *rand.Rand, nBlocks, maxTx int) *scenario {
 	}
 	pats := map[string]bool{}
 	for b := 0; b < nBlocks; b++ {
-		p := s.planBlock(rng, maxTx, pats)
+		p := s.planBlock(rng, b, maxTx, pats)
 		s.plans = append(s.plans, p)
 	}
 	for p := range pats {
@@ -397,8 +415,11 @@ func (s *scenario) pattern(rng *rand.Rand, coinbase common.Address) (string, []i
 	}
 }
 
-func (s *scenario) planBlock(rng *rand.Rand, maxTx int, pats map[string]bool) blockPlan {
+func (s *scenario) planBlock(rng *rand.Rand, block, maxTx int, pats map[string]bool) blockPlan {
 	var p blockPlan
+	var seqs [][]intent
+	total := 0
+	s.lcCreatorUsed = map[int]bool{}
 	switch rng.Intn(4) {
 	case 0:
 		p.Coinbase = pick(rng, s.contracts)
@@ -407,13 +428,27 @@ func (s *scenario) planBlock(rng *rand.Rand, maxTx int, pats map[string]bool) bl
 	default:
 		p.Coinbase = common.HexToAddress("0xc01bba5e00000000000000000000000000000001")
 	}
+	if rng.Intn(10) == 0 {
+		// the fee recipient is itself a lifecycle target (credited after each transaction, also
+		// after the one that destroys it)
+		t := s.newLcTarget(rng, block, "c2", false)
+		p.Coinbase = t.Addr
+		s.lcCount("lc_target_is_coinbase")
+		seq := s.lifecycle(rng, block, t)
+		pats["lifecycle"] = true
+		seqs = append(seqs, seq)
+		total += len(seq)
+	}
 	rng.Read(p.BeaconRoot[:])
 	target := 2 + rng.Intn(maxTx-1)
-	var seqs [][]intent
-	total := 0
 	usedPoor := false
 	for total < target {
-		if rng.Intn(100) < 55 {
+		if k := rng.Intn(100); k < 27 {
+			seq := s.lifecycle(rng, block, nil)
+			pats["lifecycle"] = true
+			seqs = append(seqs, seq)
+			total += len(seq)
+		} else if k < 67 {
 			name, seq := s.pattern(rng, p.Coinbase)
 			if name == "funded-sender" {
 				if usedPoor {
@@ -482,7 +517,7 @@ func (s *scenario) build() (out *built, err error) {
 	poorFunded := false
 	out = &built{txDesc: make([][]string, len(s.plans))}
 	wIndex := uint64(0)
-	feeCap := new(big.Int).Mul(big.NewInt(100), gwei)
+	feeCap := new(big.Int).Mul(big.NewInt(lcFeeCapGwei), gwei)
 	// Blocks are generated one at a time against a real (sequentially importing) chain so
 	// that BLOCKHASH of any ancestor resolves during generation.
 	engine := newEngine()
@@ -510,7 +545,7 @@ func (s *scenario) build() (out *built, err error) {
 				to := it.To
 				data := it.Data
 				if len(it.Cmds) > 0 {
-					data = opvm.Encode(it.Cmds...)
+					data = append(opvm.Encode(it.Cmds...), it.Data...) // Data after commands: raw input of a forwarding command
 				}
 				switch it.Kind {
 				case "call-created":
@@ -530,6 +565,9 @@ func (s *scenario) build() (out *built, err error) {
 					data = opvm.Encode(opvm.CA(opvm.OpLogExtcode, a, nil), opvm.CA(opvm.OpLogExtcopy, a, nil), opvm.CA(opvm.OpLogBalance, a, nil))
 				}
 				tip := new(big.Int).Mul(big.NewInt(it.Tip), gwei)
+				if it.TipEqCap {
+					tip = feeCap
+				}
 				var tx *types.Transaction
 				if it.Kind == "setcode" {
 					akey, aaddr := s.keys[it.Authority], s.addrs[it.Authority]
@@ -562,6 +600,13 @@ func (s *scenario) build() (out *built, err error) {
 				d := it.Kind
 				if it.Pat != "" {
 					d += "[" + it.Pat + "]"
+				}
+				if it.Note != "" {
+					d += " {" + it.Note
+					if to != nil {
+						d += " to " + to.Hex()
+					}
+					d += "}"
 				}
 				if len(it.Cmds) > 0 {
 					d += " " + opvm.String(it.Cmds)
